@@ -258,6 +258,41 @@ func runC03(c *Ctx) {
 				nAlloc++
 				c.Analysed(fn)
 				lower, upper, how := allocBounds(ms, sz, fn)
+				if p, isP := strip(sz).(*ssa.Parameter); isP && !(lower && upper) && isUnexportedHelper(fn) {
+					// make(n) inside a helper (readN(rd, n)): the bounds are established by the callers —
+					// each call site that passes a stream-read value is judged where it stands
+					idx := -1
+					for i, q := range fn.Params {
+						if q == p {
+							idx = i
+						}
+					}
+					sites := 0
+					for _, cs := range staticCallersOf(fn) {
+						if idx < 0 || idx >= len(cs.Common().Args) {
+							continue
+						}
+						arg := cs.Common().Args[idx]
+						if _, isK := constInt(arg); isK {
+							continue
+						}
+						if !derivesFrom(arg, 6, isStreamRead) {
+							continue
+						}
+						sites++
+						if sites > 1 {
+							nAlloc++
+						}
+						c.Analysed(cs.Parent())
+						lo, up, h := allocBoundsAt(cs.Block(), arg, cs.Parent())
+						c.Check("alloc-bounded", "make@"+shortName(cs.Parent())+"→"+fn.Name(), cs, (lo || lower) && (up || upper),
+							fmt.Sprintf("allocation (in %s) sized by a value read from the stream without a validated %s (%s): a negative or huge length prefix panics / exhausts memory before any data is read",
+								fn.Name(), map[bool]string{true: "upper bound", false: "lower bound (>= 0)"}[lo || lower], h))
+					}
+					if sites > 0 {
+						continue
+					}
+				}
 				c.Check("alloc-bounded", "make@"+shortName(fn), ms, lower && upper,
 					fmt.Sprintf("allocation sized by a value read from the stream without a validated %s (%s): a negative or huge length prefix panics / exhausts memory before any data is read",
 						map[bool]string{true: "upper bound", false: "lower bound (>= 0)"}[lower], how))
@@ -275,6 +310,11 @@ func runC03(c *Ctx) {
 // allocBounds decides whether size value sz (used by make at ms) has a dominating lower bound >= 0
 // and an upper bound (constant, parameter-relative, type width, or min idiom).
 func allocBounds(ms *ssa.MakeSlice, sz ssa.Value, fn *ssa.Function) (lower, upper bool, how string) {
+	return allocBoundsAt(ms.Block(), sz, fn)
+}
+
+// allocBoundsAt: the bounds known for sz at block `at` of fn.
+func allocBoundsAt(at *ssa.BasicBlock, sz ssa.Value, fn *ssa.Function) (lower, upper bool, how string) {
 	core := strip(sz)
 	// min(n, CONST) idiom: bounded above by the constant; n itself still needs the lower bound
 	if cl, ok := core.(*ssa.Call); ok {
@@ -289,7 +329,7 @@ func allocBounds(ms *ssa.MakeSlice, sz ssa.Value, fn *ssa.Function) (lower, uppe
 				}
 			}
 			if hasConst && other != nil {
-				lo, _, h := allocBounds(ms, other, fn)
+				lo, _, h := allocBoundsAt(at, other, fn)
 				return lo, true, "min(n, const); n: " + h
 			}
 		}
@@ -324,7 +364,7 @@ func allocBounds(ms *ssa.MakeSlice, sz ssa.Value, fn *ssa.Function) (lower, uppe
 				}
 			}
 			if clamp && n > 0 && argIdx >= 0 && argIdx < len(cl.Call.Args) {
-				lo, _, h := allocBounds(ms, cl.Call.Args[argIdx], fn)
+				lo, _, h := allocBoundsAt(at, cl.Call.Args[argIdx], fn)
 				return lo, true, g.Name() + "(n) clamps to a constant; n: " + h
 			}
 		}
@@ -348,7 +388,7 @@ func allocBounds(ms *ssa.MakeSlice, sz ssa.Value, fn *ssa.Function) (lower, uppe
 		}
 		return false
 	}
-	r := RangeAt(ms.Block(), is)
+	r := RangeAt(at, is)
 	lower = r.HasLo() && r.Lo >= 0
 	upper = r.HasHi()
 	how = r.String()
